@@ -32,6 +32,8 @@ func init() {
 		c19ValidatorDiscipline(c)
 		c19UnitComplete(c)
 		c19ValidateOrder(c)
+		c19UntrustedLength(c)
+		c19WireIndexGuarded(c)
 		// root-before-unpad
 		if f := p.Func("consensus/propeller", "", "ConstructMessageFromUnits"); f != nil {
 			// the body may live in an unexported worker the exported function delegates to: re-anchor on the function that
@@ -547,5 +549,163 @@ func c19ValidatorDiscipline(c *Ctx) {
 		}
 	} else {
 		c.und("signature-cache", "UnitValidator.verifySignature", "", "anchor not found")
+	}
+}
+
+
+// c19UntrustedLength: a length decoded from received bytes (binary.Uvarint / binary.ReadUvarint) must be compared with
+// something before it takes part in unsigned arithmetic: `prefix + len` wraps around for lengths close to 2^64, the bound
+// check that follows passes and the slice expression panics (defect F20). Accepted: any comparison of the decoded value
+// itself (or a conversion of it) that dominates the arithmetic.
+func c19UntrustedLength(c *Ctx) {
+	p := c.P
+	n := 0
+	for _, fn := range p.sortedFuncs() {
+		if pkgRelOf(fn) != "consensus/propeller" && !strings.HasPrefix(pkgRelOf(fn), "consensus/propeller/") {
+			continue
+		}
+		for _, s := range sitesOf(fn) {
+			nm := s.CalleeName()
+			if !strings.HasSuffix(nm, "binary.Uvarint") && !strings.HasSuffix(nm, "binary.ReadUvarint") {
+				continue
+			}
+			call, ok := s.Instr.(*ssa.Call)
+			if !ok {
+				continue
+			}
+			var src ssa.Value
+			if refs := call.Referrers(); refs != nil {
+				for _, r := range *refs {
+					if ex, ok := r.(*ssa.Extract); ok && ex.Index == 0 {
+						src = ex
+					}
+				}
+			}
+			if src == nil {
+				continue
+			}
+			n++
+			// values that are the decoded length up to conversions
+			same := map[ssa.Value]bool{src: true}
+			for changed := true; changed; {
+				changed = false
+				allInstrs(fn, func(in ssa.Instruction) {
+					switch x := in.(type) {
+					case *ssa.Convert:
+						if same[x.X] && !same[x] {
+							same[x] = true
+							changed = true
+						}
+					case *ssa.ChangeType:
+						if same[x.X] && !same[x] {
+							same[x] = true
+							changed = true
+						}
+					}
+				})
+			}
+			// comparisons of the decoded value
+			var cmps []*ssa.BinOp
+			allInstrs(fn, func(in ssa.Instruction) {
+				if b, ok := in.(*ssa.BinOp); ok {
+					switch b.Op {
+					case token.LSS, token.LEQ, token.GTR, token.GEQ:
+						if same[b.X] || same[b.Y] {
+							cmps = append(cmps, b)
+						}
+					}
+				}
+			})
+			bounded := func(in ssa.Instruction) bool {
+				for _, cmp := range cmps {
+					if refs := cmp.Referrers(); refs != nil {
+						for _, r := range *refs {
+							if iff, ok := r.(*ssa.If); ok && iff.Block() != in.Block() && iff.Block().Dominates(in.Block()) {
+								return true
+							}
+						}
+					}
+				}
+				return false
+			}
+			bad := ""
+			var badPos token.Pos
+			allInstrs(fn, func(in ssa.Instruction) {
+				b, ok := in.(*ssa.BinOp)
+				if !ok || !(same[b.X] || same[b.Y]) {
+					return
+				}
+				switch b.Op {
+				case token.ADD, token.MUL, token.SHL, token.SUB:
+					if !bounded(b) {
+						bad = term(b)
+						badPos = b.Pos()
+					}
+				}
+			})
+			construct := qname(fn) + ": length from " + nm[strings.LastIndex(nm, "/")+1:]
+			if bad != "" {
+				c.viol("untrusted-length-arith", construct, p.Pos(badPos), "the decoded length takes part in "+bad+" before it was compared with anything: a length close to the type's maximum wraps around and the bound check that follows passes")
+			} else {
+				c.ok("untrusted-length-arith", construct, p.Pos(s.Pos()), "the decoded length is bounded by a comparison before any arithmetic on it")
+			}
+		}
+	}
+	if n == 0 {
+		c.und("untrusted-length-arith", "consensus/propeller", "", "no binary.Uvarint decoding found")
+	}
+}
+
+// c19WireIndexGuarded: in a function that converts a received protobuf message (a parameter of a type of the propeller
+// proto package) every constant index into a slice and every slice→array conversion is dominated by a test of that
+// slice's length: a wire unit with no shards or a short root must be an error, not a panic (defect F21).
+func c19WireIndexGuarded(c *Ctx) {
+	p := c.P
+	n := 0
+	for _, fn := range p.sortedFuncs() {
+		if pkgRelOf(fn) != "consensus/propeller" || fn.Signature == nil {
+			continue
+		}
+		wire := false
+		for _, pa := range fn.Params {
+			if strings.Contains(pa.Type().String(), "consensus/propeller/proto.") {
+				wire = true
+			}
+		}
+		if !wire {
+			continue
+		}
+		lenGuarded := func(in ssa.Instruction, v ssa.Value) bool {
+			t := term(v)
+			for _, f := range factStrings(factsAt(in)) {
+				if strings.Contains(f, "len("+t+")") {
+					return true
+				}
+			}
+			d := p.mustHoldAt(in)
+			if ok, _ := everyDisjunctHas(d, []string{"len(" + t + ")"}); ok && len(d) > 0 {
+				return true
+			}
+			return false
+		}
+		allInstrs(fn, func(in ssa.Instruction) {
+			switch x := in.(type) {
+			case *ssa.IndexAddr:
+				if _, isSlice := x.X.Type().Underlying().(*types.Slice); !isSlice {
+					return
+				}
+				if _, isConst := x.Index.(*ssa.Const); !isConst {
+					return
+				}
+				n++
+				c.check(lenGuarded(x, x.X), "wire-index-guarded", qname(fn)+": "+term(x.X)+"["+term(x.Index)+"]", p.Pos(posOf(x, fn)), "indexed only after the slice's length was tested", "a slice built from the received message is indexed with a constant without a preceding length test: an empty list panics instead of being rejected")
+			case *ssa.SliceToArrayPointer:
+				n++
+				c.check(lenGuarded(x, x.X), "wire-index-guarded", qname(fn)+": array conversion of "+term(x.X), p.Pos(posOf(x, fn)), "converted to an array only after its length was tested", "received bytes are converted to a fixed-size array without a preceding length test: a short field panics instead of being rejected")
+			}
+		})
+	}
+	if n == 0 {
+		c.und("wire-index-guarded", "consensus/propeller", "", "no wire conversion with constant index / array conversion found")
 	}
 }
